@@ -91,6 +91,19 @@ CHECKS = {
         "1e-9 relative tolerance; tracker acceptance only judged without transforms and away from the tolerance boundary.",
         "DESIGN.md §3 C13",
     ),
+    "C06": (
+        "exploration",
+        "Hypothesis over call histories with recording / garbage-filling / memoizing evaluators; trace validity predicate, metamorphic garbage relation, deep-copy aliasing oracle",
+        "Random ensembles with zero weights, filters, all three transform kinds and evaluation_info, driven through histories of 1-4 calculate() calls "
+        "(function batches, split and combined gradients): every evaluator call must request exactly the needed (vector|perturbation, realization) "
+        "rows once with correct labels and user-domain variables, every reported value must be the transformed value returned for the row with that "
+        "label, activity flags (per function and the per-realization summary) must agree with the weights in force, two runs differing only in the "
+        "garbage returned for inactive entries must report identical functions/gradients/weights/flags, the evaluator's (possibly memoized) result "
+        "object and arrays must be untouched, and every array of every delivered result must stay byte-identical and read-only after the harness "
+        "overwrites its own arrays.",
+        "No NaN failures here (C03); 'reported result' of the garbage relation excludes the raw per-realization arrays; 1e-12 relative row matching.",
+        "DESIGN.md §3 C06",
+    ),
 }
 
 NOT_YET = "check not built yet in this session (planned, see DESIGN.md §3)"
